@@ -495,7 +495,6 @@ func goRecClass(goName string) string {
 	return ""
 }
 
-
 // goRecFixed: wire size of the universe's structs that are made of fixed-size
 // fields only (spec widths: int32 4, float64 8, uint64 8, guid 16, date 8).
 func goRecFixed(goName string) (int, bool) {
